@@ -113,8 +113,8 @@ class Worker:
             self.last_call_sig = sig
             if self.same >= SPIN:
                 kind = "sleep"
-        else:
-            self.same, self.last_call_sig = 0, None
+        elif kind != "line":
+            self.same, self.last_call_sig = 0, None      # (statement-level yields in between do not interrupt a busy wait)
         self.last_kind = kind
         if kind == "sleep":
             # stuck = a whole poll iteration ran from the previous sleep to this one while nobody changed the hub state
